@@ -2,6 +2,7 @@
 """Prints the markdown table of seeded changes (seeded/<ID>/<n>/meta.json) for DESIGN.md section 9.6."""
 import glob, json, os, re
 HERE = os.path.dirname(os.path.dirname(os.path.abspath(__file__)))
+JUDGE = json.load(open(os.path.join(HERE, "seeded", "JUDGEMENTS.json"))) if os.path.exists(os.path.join(HERE, "seeded", "JUDGEMENTS.json")) else {}
 rows = []
 for m in sorted(glob.glob(os.path.join(HERE, "seeded", "*", "*", "meta.json"))):
     d = json.load(open(m))
@@ -10,7 +11,7 @@ for m in sorted(glob.glob(os.path.join(HERE, "seeded", "*", "*", "meta.json"))):
     first = next((l.strip(" -#*") for l in notes if len(l.strip()) > 25), "")
     caught = ", ".join(d.get("caught_by", []))
     if not caught:
-        caught = "(judged outside the domain)" if d.get("judged_out_of_domain") else "**missed**"
+        caught = "(judged outside the domain)" if (d.get("judged_out_of_domain") or ("%s/%s" % (pid, n)) in JUDGE) else "**missed**"
     rows.append((pid, n, caught, first[:150]))
 print("| seeded change | caught by (quick tier) | what it is |")
 print("|---|---|---|")
